@@ -206,11 +206,128 @@ def conc_expand(P, w):
     return {'ok': got == exp, 'observed': got, 'expected': exp}
 
 
+# ---- whole scripts through the interface / section getters -------------------------------------------------------------------
+NAT, INT, LIT = {'prim': 'nat'}, {'prim': 'int'}, {'int': '7'}
+VBODY_PLAIN = [{'prim': 'DROP'}, {'prim': 'PUSH', 'args': [INT, LIT]}]
+
+
+def _script_setup(choose):
+    """Registers type / literal / code constants (one of them referring to others); returns (ctx, table, refs by sort)."""
+    import pytezos.context.impl as I
+
+    ctx = I.ExecutionContext()
+    table = {}
+
+    def reg(e):
+        ctx.register_global_constant(e)
+        h = I.forge_script_expr(I.forge_micheline(e))
+        table[h] = e
+        return ref(h)
+
+    r_nat, r_int, r_lit = reg(NAT), reg(INT), reg(LIT)
+    body = [{'prim': 'DROP'}, {'prim': 'PUSH', 'args': [r_int if choose('body_type_ref', 0, 1) else INT, r_lit if choose('body_lit_ref', 0, 1) else LIT]}]
+    r_body = reg(body)
+    return ctx, table, {'nat': r_nat, 'int': r_int, 'lit': r_lit, 'body': r_body}
+
+
+def _whole_script(choose, R, tag, sites=None):
+    """A well-formed script with a view; each of 6 sites is plain, a reference, or (one site per script at most) an unknown hash."""
+    plain = {'storage': NAT, 'view_in': NAT, 'view_out': INT, 'view_body': VBODY_PLAIN, 'push_type': INT, 'push_lit': LIT}
+    const = {'storage': R['nat'], 'view_in': R['nat'], 'view_out': R['int'], 'view_body': R['body'], 'push_type': R['int'], 'push_lit': R['lit']}
+    S = {}
+    active = [k for k in plain if sites is None or k in sites]
+    u = choose(f'{tag}:unknown_site', 0, len(active))          # 0 = no unknown hash, i = the i-th varying site names an unknown hash
+    unknown_used = u > 0
+    for k in plain:
+        if k in active and unknown_used and active[u - 1] == k:
+            S[k] = ref(UNKNOWN)
+        elif k in active:
+            S[k] = const[k] if choose(f'{tag}:{k}', 0, 1) else plain[k]
+        else:
+            S[k] = plain[k]
+    script = [
+        {'prim': 'parameter', 'args': [{'prim': 'unit'}]},
+        {'prim': 'storage', 'args': [S['storage']]},
+        {'prim': 'code', 'args': [[{'prim': 'CDR'}, {'prim': 'PUSH', 'args': [S['push_type'], S['push_lit']]}, {'prim': 'DROP'}, {'prim': 'NIL', 'args': [{'prim': 'operation'}]}, {'prim': 'PAIR'}]]},
+        {'prim': 'view', 'args': [{'string': 'seven'}, S['view_in'], S['view_out'], S['view_body']]},
+    ]
+    return script, unknown_used
+
+
+def _section(script, name):
+    return [x for x in script if x['prim'] == name]
+
+
+def _check_script(P, choose, check, fail):
+    import pytezos.context.impl as I
+    from pytezos.contract.interface import ContractInterface
+
+    ctx, table, R = _script_setup(choose)
+    script, unknown = _whole_script(choose, R, 's1')
+    if P['via'] == 'interface':
+        try:
+            ci = ContractInterface.from_micheline(script, ctx)
+        except KeyError:
+            if not unknown:
+                fail('from_micheline raised KeyError although every referenced constant is registered')
+            return
+        except Exception as e:  # noqa
+            if type(e).__name__ in ('Abort', 'Found', 'Inconclusive'):
+                raise
+            fail(f'from_micheline failed: {type(e).__name__}: {e}')
+            return
+        if unknown:
+            fail('from_micheline succeeded although the script references an unknown hash')
+            return
+        exp = ref_resolve(script, table)
+        check(ci.to_micheline() == exp, 'ContractInterface.from_micheline expands every section (parameter, storage, code, views)')
+        check(ci.context.views_expr == _section(exp, 'view'), 'the view sections kept by the context are expanded')
+        return
+    # section getters of one context, for two scripts in a row
+    script, unknown = _whole_script(choose, R, 's1', ('storage', 'view_out', 'push_lit'))
+    c2 = I.ExecutionContext(script={'code': script}, global_constants=ctx.global_constants)
+    for round_ in (1, 2):
+        if round_ == 2:
+            script, unknown = _whole_script(choose, R, 's2', ('view_body', 'push_type', 'push_lit'))
+            c2.set_parameter_expr(_section(script, 'parameter')[0])
+            c2.set_storage_expr(_section(script, 'storage')[0])
+            c2.set_code_expr(_section(script, 'code')[0])
+            c2.views_expr = _section(script, 'view')
+        try:
+            got = [c2.get_parameter_expr(), c2.get_storage_expr(), c2.get_code_expr()] + list(c2.get_views_expr())
+        except KeyError:
+            if not unknown:
+                fail(f'script {round_}: a section getter raised KeyError although every referenced constant is registered')
+            return
+        if unknown:
+            fail(f'script {round_}: the section getters succeeded although the script references an unknown hash')
+            return
+        check(got == ref_resolve(script, table), f'script {round_}: the section getters return the expanded sections of the current script')
+
+
+def sym_script(P, ex):
+    with _env():
+        _check_script(P, lambda n, lo, hi: mbv._choose(ex, n, lo, hi), lambda c, label: ex.check(c, label), lambda m: ex.fail_here(m))
+        ex.check(True)
+
+
+def conc_script(P, w):
+    problems = []
+    _check_script(P, lambda n, lo, hi: int(w.get(n, lo)), lambda c, label: (None if c else problems.append(label)), problems.append)
+    return {'ok': not problems, 'observed': problems[:3]}
+
+
 def obligations(tier):
     q = tier == 'quick'
     n = 3 if q else 4
     import itertools
 
+    extra = [Ob('script/through-ContractInterface.from_micheline', 'bvx', sym_script, conc_script, {'via': 'interface'}, timeout=300,
+                bounds='script with a view: 6 reference sites (storage type, view input/output types, view body, PUSH type, PUSH literal) each plain / reference / unknown hash (solver-chosen); '
+                       'the body constant refers to other constants', targets=TARGETS + ['pytezos.contract.interface.ContractInterface.from_micheline']),
+             Ob('script/through-section-getters-twice', 'bvx', sym_script, conc_script, {'via': 'getters'}, timeout=600,
+                bounds='the same with 3 varying sites per script, read through get_parameter_expr/get_storage_expr/get_code_expr/get_views_expr of one context for two scripts set one after the other',
+                targets=TARGETS + ['pytezos.context.impl.ExecutionContext.get_parameter_expr/get_storage_expr/get_code_expr/get_views_expr/set_*_expr'])]
     names = ['type:parameter', 'type:in-pair', 'code:seq', 'code:seq-in-seq', 'code:instr-arg', 'data:in-pair', 'data:seq-in-seq']
     obs = []
     for pair in itertools.combinations(range(7), 2):
@@ -218,4 +335,4 @@ def obligations(tier):
                       timeout=300 if q else 1800, opts={'W': 32},
                       bounds=f'{n} constants (solver-chosen reference edges); the two named sites each name nothing / any constant / an unknown hash; leaves symbolic in 0..63',
                       targets=TARGETS))
-    return obs
+    return obs + extra
